@@ -13,7 +13,10 @@ RULE = ("seeded event scenarios on the harmonic oscillator (closed form): 1..6 s
         "returned is recorded for every step and replayed through the Lean selection model; the recorded events list through the "
         "bookkeeping model; the property clauses are evaluated on the reported events. non-trivial = scenario with >= 2 events or a "
         "boundary crossing; distinct by scenario")
-ASSUMPTIONS = ["closeness to a root of the exact trajectory is judged at 50 x tolerance of the integration (1e-6 for fixed-step runs)"]
+ASSUMPTIONS = ["closeness to a root of the exact trajectory is judged at 50 x tolerance of the integration (1e-6 for fixed-step runs)",
+               "events whose located roots are exactly equal floats are ordered by numpy.argsort in an unspecified way: the model's stable order is one "
+               "admissible outcome, and an implementation outcome that differs only in the order of such ties (and in which tie-mates of a terminal "
+               "event precede it) is accepted as corresponding"]
 
 METHODS = ["RK4Solver", "RK45CKSolver", "DOPRI45", "RK8713MSolver", "ABAs5o6HSolver"]
 EPS = eventsim.EPS
@@ -141,12 +144,26 @@ def analyse(ctx, sc, evs, ode, spy, exc, focus, lines, pending):
                         continue
                     lo, hi = min(t[k], t[k + 1]), max(t[k], t[k + 1])
                     found = any(j == i and lo - 1e-12 <= te <= hi + 1e-12 for (j, te, _) in reported)
+                    # a crossing located AT the stop of an event-terminated run (a tie with the terminal event, to within the
+                    # root finder's resolution) is not "before the stop": whether it is listed depends on numpy's tie order
+                    if not found and terminal_hit and k == len(vals) - 2:
+                        tstar = t[k] + (t[k + 1] - t[k]) * a / (a - b)
+                        if abs(t[k + 1] - tstar) <= 1e-5 * abs(t[k + 1] - t[k]) + 1e-9:
+                            ctx.count("completeness:crossing-coincides-with-the-stop")
+                            continue
+                    near_stop = False
+                    if not found and terminal_hit and k == len(vals) - 2:
+                        # the stop itself is located on the cubic dense output (finding P23): a crossing closer to the located stop than
+                        # that location error may fall on either side of it
+                        hmax_ = float(np.max(np.abs(np.diff(t))))
+                        near_stop = abs(b) <= 2.0 * abs(g.desc["s"]) * 0.5 * hmax_ ** 4
                     if not found:
                         # classify: did the bracketing root finder refuse the (steep) crossing?
-                        st = [s_ for s_ in spy.steps if "error" not in s_ and abs(s_["t_prev"] - t[k]) < 1e-12 and abs(s_["t_next"] - t[k + 1]) < 1e-12]
+                        # (the recorded samples include the event points themselves, so the integrator step is the one that CONTAINS [lo, hi])
+                        st = [s_ for s_ in spy.steps if "error" not in s_ and min(s_["t_prev"], s_["t_next"]) - 1e-12 <= lo and hi <= max(s_["t_prev"], s_["t_next"]) + 1e-12]
                         steep = bool(st) and not st[0]["probes"][i]["success"]
                         ctx.oracle("sign-change-reported", False, dict(inp, event=i, step=[float(t[k]), float(t[k + 1])], g=[a, b], root_finder_success=(st[0]["probes"][i]["success"] if st else None)),
-                                   key="steep-event-missed" if steep else "event-missed",
+                                   key="steep-event-missed" if steep else ("event-location-limited-by-cubic-dense-output" if near_stop else "event-missed"),
                                    what="event %d changes sign (%.3e -> %.3e) in the step [%r, %r] but no event is reported there" % (i, a, b, float(t[k]), float(t[k + 1])))
                     else:
                         ctx.oracle("sign-change-reported", True)
@@ -209,6 +226,28 @@ def loop_status(ode):
     return st if isinstance(st, int) else 3
 
 
+def tie_equivalent(impl, model, probes):
+    """numpy.argsort does not define the order of exactly equal roots (and which tie-mates of a terminal event fall before it):
+    the model's stable order is one admissible outcome; another outcome is accepted when it differs only there"""
+    try:
+        (ia, it), (ma, mt) = impl.split(), model.split()
+        if it != mt:
+            return False
+        I = [int(v) for v in ia.split(",")] if ia != "-" else []
+        M = [int(v) for v in ma.split(",")] if ma != "-" else []
+        r = lambda i: probes[i]["root"]
+        if it == "true":
+            if not I or not M or not probes[I[-1]]["terminal"] or r(I[-1]) != r(M[-1]):
+                return False
+            rt = r(M[-1])
+            A, B = [i for i in I if r(i) != rt], [i for i in M if r(i) != rt]
+        else:
+            A, B = I, M
+        return sorted(A) == sorted(B) and [r(i) for i in A] == [r(i) for i in B]
+    except Exception:
+        return False
+
+
 def run_focus(ctx, focus, n_quick, n_thorough):
     rng = ctx.rng
     lines, pending = [], []
@@ -220,7 +259,11 @@ def run_focus(ctx, focus, n_quick, n_thorough):
     for (kind, inp, data), o in zip(pending, outs):
         if kind == "select":
             want = "%s %s" % (",".join(str(a) for a in data["active"]) if data["active"] else "-", "true" if data["terminate"] else "false")
-            ctx.corr("event-selection", o == want, dict(inp, step=[data["t_prev"], data["t_next"]], probes=data["probes"], impl=want, model=o))
+            same = o == want
+            if not same and tie_equivalent(want, o, data["probes"]):
+                same = True
+                ctx.count("selection:exact-root-tie-ordered-differently-by-numpy")
+            ctx.corr("event-selection", same, dict(inp, step=[data["t_prev"], data["t_next"]], probes=data["probes"], impl=want, model=o))
         else:
             want = ",".join("%d@%s" % (i, fbits(te)) for (i, te, _) in data) if data else "-"
             ctx.corr("event-bookkeeping", o == want, dict(inp, impl=want[:300], model=o[:300]))
